@@ -40,7 +40,7 @@ def run(ctx):
         ctx.guard(consumers.accept_sets, ctx, cfg, fs, 'A.accept-sets')
         ctx.guard(strictness, ctx, cfg, fs)
         ctx.guard(position_carried, ctx, cfg, fs)
-        if cfg != 'none':
+        if fs.find(r'^complete_gen::<impl args::inner::State>::check_complete$', required=False):
             import c14
             ctx.guard(c14.pos_only_source, ctx, cfg, fs, 'C.completion')
         import wiring
